@@ -1251,6 +1251,126 @@ def gen_huf():
     return "\n".join(L)
 
 
+def gen_enc():
+    """Frame/block-level encoder facts (C02, C15, C16): presence of the per-frame resets, the raw
+    fallback and its Huffman-table reset, literals thresholds, block-header and window-descriptor
+    arithmetic.  Guards are `Nat -> Nat -> Bool`; presence facts are `Bool` (absence is a value, not
+    an extraction error: the theorems that need the statement then stop checking)."""
+    fc = strip_comments(read("ruzstd/src/encoding/frame_compressor.rs"))
+    fa = strip_comments(read("ruzstd/src/encoding/levels/fastest.rs"))
+    co = strip_comments(read("ruzstd/src/encoding/blocks/compressed.rs"))
+    bh = strip_comments(read("ruzstd/src/encoding/block_header.rs"))
+    fh = strip_comments(read("ruzstd/src/encoding/frame_header.rs"))
+    OPRE = r"(?P<op>>=|<=|==|!=|>|<)"
+    L = ["/- GENERATED by tools/extract.py from /repo — do not edit. -/", "import Zstd.Gen.Headers", "namespace Zstd.Gen", ""]
+
+    def B(name, val, doc):
+        L.append(f"/-- {doc} -/")
+        L.append(f"def {name} : Bool := {'true' if val else 'false'}")
+
+    def N(name, val, doc):
+        L.append(f"/-- {doc} -/")
+        L.append(f"def {name} : Nat := {val}")
+
+    def G(name, op, doc):
+        L.append(f"/-- {doc}; source operator `{op}` -/")
+        L.append(f"def {name} (a b : Nat) : Bool := decide ({OPS[op]})")
+
+    # ---- FrameCompressor::compress: per-frame resets happen before the source is touched
+    body = fn_body(fc, "compress", "enc")
+    cut = body.find("let source")
+    if cut < 0:
+        raise ExtractError("extract:enc:compress: `let source` anchor")
+    pre = body[:cut]
+    B("frameResetsMatcher", re.search(r"self\.state\.matcher\.reset\(\s*self\.compression_level\s*\)\s*;", pre) is not None,
+      "`FrameCompressor::compress` calls `self.state.matcher.reset(self.compression_level)` before reading")
+    B("frameResetsHuff", re.search(r"self\.state\.last_huff_table\s*=\s*None\s*;", pre) is not None,
+      "`FrameCompressor::compress` sets `self.state.last_huff_table = None` before reading")
+    B("frameReseedsHasher", re.search(r"self\.hasher\s*=\s*XxHash64::with_seed\(\s*0\s*\)\s*;", pre) is not None,
+      "`FrameCompressor::compress` re-seeds `self.hasher = XxHash64::with_seed(0)` before reading")
+    # what is hashed: the block just read
+    B("hashesInputBlock", re.search(r"self\.hasher\.write\(\s*&uncompressed_data\s*\)\s*;", body) is not None,
+      "`self.hasher.write(&uncompressed_data)` (the block read from the source is what is hashed)")
+    # header fields
+    m = re.search(r"FrameHeader\s*\{\s*frame_content_size:\s*None\s*,\s*single_segment:\s*false\s*,\s*content_checksum:\s*cfg!\(feature\s*=\s*\"hash\"\)\s*,\s*dictionary_id:\s*None\s*,\s*window_size:\s*Some\(\s*self\.state\.matcher\.window_size\(\)\s*\)\s*,?\s*\}", body)
+    if not m:
+        raise ExtractError("extract:enc:compress: FrameHeader literal")
+    # last-block logic of the read loop: `new_bytes == 0 -> last_block = true`, `read_bytes == len -> false`
+    m = re.search(r"if\s+new_bytes\s*==\s*0\s*\{\s*last_block\s*=\s*(true|false)\s*;\s*break\s+'read_loop\s*;\s*\}\s*read_bytes\s*\+=\s*new_bytes\s*;\s*if\s+read_bytes\s*" + OPRE + r"\s*uncompressed_data\.len\(\)\s*\{\s*last_block\s*=\s*(true|false)\s*;\s*break\s+'read_loop\s*;", body)
+    if not m:
+        raise ExtractError("extract:enc:compress: read loop")
+    B("readZeroMeansLast", m.group(1) == "true", "read loop: `new_bytes == 0` sets `last_block` to this value")
+    G("readFullGuard", m.group("op"), "read loop: `read_bytes OP uncompressed_data.len()` ends the block")
+    B("readFullMeansLast", m.group(3) == "true", "read loop: a full block sets `last_block` to this value")
+    # ---- compress_fastest
+    m = re.search(r"if\s+compressed_size\s*(>=|<=|==|!=|>|<)\s*block_size as usize\s*\|\|\s*compressed_size\s*(>=|<=|==|!=|>|<)\s*MAX_BLOCK_SIZE as usize\s*\{(?P<then>.*?)\}\s*else\s*\{", fa, flags=re.S)
+    present = m is not None and "BlockType::Raw" in m.group("then") and "get_last_space()" in m.group("then")
+    B("fastestRawFallbackPresent", present, "`compress_fastest` has the raw-fallback branch (`if compressed_size .. || .. { Raw }`)")
+    B("fastestRawForgetsHuff", present and re.search(r"state\.last_huff_table\s*=\s*None\s*;", m.group("then")) is not None,
+      "the raw-fallback branch sets `state.last_huff_table = None` (repair of F5)")
+    # ---- compress_block
+    body = fn_body(co, "compress_block", "enc")
+    m = re.search(r"of:\s*\(\s*offset\s*\+\s*(\d+)\s*\)\s*as u32", body)
+    if not m:
+        raise ExtractError("extract:enc:compress_block: of: (offset + K)")
+    N("offsetAdd", int(m.group(1)), "`compress_block`: `of: (offset + K) as u32`")
+    m = re.search(r"if\s+literals_vec\.len\(\)\s*" + OPRE + r"\s*(\d+)\s*\{", body)
+    if not m:
+        raise ExtractError("extract:enc:compress_block: literals threshold")
+    G("litHuffGuard", m.group("op"), "`compress_block`: `if literals_vec.len() OP K` (then = compress_literals, else raw_literals)")
+    N("litHuffThreshold", int(m.group(2)), "`compress_block`: the K of the guard above")
+    # ---- choose_table: today always a new table (previous / predefined tables are never used)
+    body = fn_body(co, "choose_table", "enc")
+    if not re.search(r"let use_new_table\s*=\s*true\s*;\s*let use_previous_table\s*=\s*false\s*;", body):
+        raise ExtractError("extract:enc:choose_table: strategy changed (model assumes: always a new table)")
+    # ---- raw_literals: 2 bits type 0, 2 bits size format 0b11, 20 bits size
+    body = fn_body(co, "raw_literals", "enc")
+    m = re.search(r"writer\.write_bits\(\s*0u8\s*,\s*2\s*\)\s*;\s*writer\.write_bits\(\s*0b11u8\s*,\s*2\s*\)\s*;\s*writer\.write_bits\(\s*literals\.len\(\) as u32\s*,\s*(\d+)\s*\)\s*;\s*writer\.append_bytes\(\s*literals\s*\)\s*;", body)
+    if not m:
+        raise ExtractError("extract:enc:raw_literals")
+    _unused_raw_lit_bits = ("rawLitSizeBits", int(m.group(1)), "`raw_literals`: type 0 (2 bits), size format 0b11 (2 bits), size in this many bits")
+    # ---- compress_literals
+    body = fn_body(co, "compress_literals", "enc")
+    m = re.search(r"if\s+diff\s*" + OPRE + r"\s*(\d+)\s*\{", body)
+    if not m:
+        raise ExtractError("extract:enc:compress_literals: diff guard")
+    G("treelessDiffGuard", m.group("op"), "`compress_literals`: `if diff OP K` (then = new table)")
+    N("treelessDiffK", int(m.group(2)), "`compress_literals`: the K of the guard above")
+    m = re.search(r"if\s+total_len\s*" + OPRE + r"\s*literals\.len\(\)\s*\{", body)
+    if not m:
+        raise ExtractError("extract:enc:compress_literals: raw fallback guard")
+    G("litRawFallbackGuard", m.group("op"), "`compress_literals`: `if total_len OP literals.len()` (then = reset and write raw literals)")
+    arms = re.findall(r"(\d+)\s*\.\.\s*(\d+)\s*=>\s*\(\s*(0b[01]+)(?:u8)?\s*,\s*(\d+)\s*\)", body)
+    if len(arms) != 4 or not re.search(r"_\s*=>\s*unimplemented!", body):
+        raise ExtractError("extract:enc:compress_literals: size format arms")
+    # ---- BlockHeader::serialize
+    body = fn_body(bh, "serialize", "enc")
+    rows = re.findall(r"BlockType::(\w+)\s*=>\s*(\d+)", body)
+    if [r[0] for r in rows] != ["Raw", "RLE", "Compressed"] or "BlockType::Reserved => panic!" not in body:
+        raise ExtractError("extract:enc:BlockHeader::serialize: type arms")
+    names = {"Raw": "blockTypeRaw", "RLE": "blockTypeRle", "Compressed": "blockTypeCompressed"}
+    for n, v in rows:
+        N(names[n], int(v), f"`BlockHeader::serialize`: `BlockType::{n} => {v}`")
+    m = re.search(r"let mut block_header\s*=\s*self\.block_size\s*<<\s*(\d+)\s*;\s*block_header\s*\|=\s*encoded_block_type\s*<<\s*(\d+)\s*;\s*block_header\s*\|=\s*self\.last_block as u32\s*;\s*output\.extend_from_slice\(\s*&block_header\.to_le_bytes\(\)\[0\.\.(\d+)\]\s*\)", body)
+    if not m:
+        raise ExtractError("extract:enc:BlockHeader::serialize: shifts")
+    N("blockSizeShift", int(m.group(1)), "`block_header = self.block_size << K`")
+    N("blockTypeShift", int(m.group(2)), "`block_header |= encoded_block_type << K`")
+    N("blockHeaderBytes", int(m.group(3)), "`to_le_bytes()[0..K]`")
+    # ---- FrameHeader::serialize: window descriptor
+    body = fn_body(fh, "serialize", "enc")
+    m = re.search(r"let log\s*=\s*window_size\.next_power_of_two\(\)\.ilog2\(\)\s*;\s*let exponent\s*=\s*if\s+log\s*" + OPRE + r"\s*(\d+)\s*\{\s*log\s*-\s*(\d+)\s*\}\s*else\s*\{\s*(\d+)\s*\}\s*as u8\s*;\s*output\.push\(\s*exponent\s*<<\s*(\d+)\s*\)", body)
+    if not m:
+        raise ExtractError("extract:enc:FrameHeader::serialize: window descriptor")
+    G("windowLogGuard", m.group("op"), "`FrameHeader::serialize`: `if log OP K { log - S } else { E }`")
+    N("windowLogK", int(m.group(2)), "K of the guard above")
+    N("windowLogSub", int(m.group(3)), "S of the guard above")
+    N("windowLogElse", int(m.group(4)), "E of the guard above")
+    N("windowExpShift", int(m.group(5)), "`output.push(exponent << K)`")
+    L += ["", "end Zstd.Gen", ""]
+    return "\n".join(L)
+
+
 MODULES = {
     "Consts": gen_consts,
     "DecTables": gen_dectables,
@@ -1259,6 +1379,7 @@ MODULES = {
     "Fse": gen_fse,
     "Guards": gen_guards,
     "Headers": gen_headers,
+    "Enc": gen_enc,
     "Huf": gen_huf,
     "Reset": gen_reset,
     "Matcher": gen_matcher,
